@@ -113,21 +113,41 @@ def last_difference_invariants(fi: FuncInfo, roles: MergeRoles, rule: str) -> Tu
                 if it[0] == 'simple':
                     if _is_increment(it[1], cur):
                         inc_seen = True
-                if it[0] == 'if' and len(it[1]) == 1:
+                if it[0] == 'if' and len(it[1]) >= 1:
                     try:
                         g = C.canon_cond(it[1][0][0], env)
                     except C.CanonError:
                         continue
                     if g != exp_guard:
                         continue
-                    tb, eb = it[1][0][1], it[2]
-                    tv = {st[1].targets[0].id: st[1].value for st in tb if st[0] == 'simple' and
-                          isinstance(st[1], ast.Assign) and isinstance(st[1].targets[0], ast.Name)}
-                    ev = {st[1].targets[0].id: st[1].value for st in eb if st[0] == 'simple' and
-                          isinstance(st[1], ast.Assign) and isinstance(st[1].targets[0], ast.Name)}
-                    for v in set(tv) & set(ev):
-                        reads_self = any(isinstance(x, ast.Name) and x.id == v for x in ast.walk(ev[v]))
-                        if not reads_self:
+                    # `if cur < n-1: v = next ISI` followed by the end-edge alternatives (an else branch that may
+                    # itself be split on `N > 1`, as a conditional expression or as an else-if chain)
+                    tb = it[1][0][1]
+                    others = [alt[1] for alt in it[1][1:]] + [it[2]]
+
+                    def assigns(body):
+                        out = {}
+                        for st in body:
+                            if st[0] == 'simple' and isinstance(st[1], ast.Assign) and isinstance(st[1].targets[0], ast.Name):
+                                out[st[1].targets[0].id] = st[1].value
+                            elif st[0] == 'if':
+                                subs = [assigns(a[1]) for a in st[1]] + [assigns(st[2])]
+                                for nm in set.intersection(*[set(x) for x in subs]) if subs else ():
+                                    out[nm] = [x[nm] for x in subs]
+                        return out
+                    tv = assigns(tb)
+                    evs = [assigns(b) for b in others]
+                    common = set(tv)
+                    for e_ in evs:
+                        common &= set(e_)
+                    for v in common:
+                        def reads(val):
+                            if isinstance(val, list):
+                                return any(reads(x) for x in val)
+                            return any(isinstance(x, ast.Name) and x.id == v for x in ast.walk(val))
+                        if not any(reads(e_[v]) for e_ in evs):
+                            continue
+                        if isinstance(tv[v], list):
                             continue
                         cand.add(v)
                         okv = inc_seen and C.canon_expr(tv[v], env) == exp_val
@@ -142,7 +162,9 @@ def last_difference_invariants(fi: FuncInfo, roles: MergeRoles, rule: str) -> Tu
                 for x in ast.walk(ast.Module(body=[n_ for it in body for n_ in ([it[1]] if it[0] == 'simple' else [it[-1]])], type_ignores=[])):
                     if isinstance(x, ast.Name) and x.id == v and isinstance(x.ctx, ast.Store):
                         n_assign += 1
-            good &= (n_assign == 2 * len(vs))
+            def n_stores(it_):
+                return sum(1 for x in ast.walk(it_[-1]) if isinstance(x, ast.Name) and x.id == v and isinstance(x.ctx, ast.Store))
+            good &= (n_assign == sum(n_stores(s_[1]) for s_ in vs))
             # every advance of the cursor is followed by such a site
             n_inc = sum(1 for body in bodies for it in body if it[0] == 'simple' and _is_increment(it[1], cur))
             good &= (n_inc == len(vs))
@@ -156,15 +178,27 @@ def last_difference_invariants(fi: FuncInfo, roles: MergeRoles, rule: str) -> Tu
                         for st in body:
                             if st[0] == 'simple' and isinstance(st[1], ast.Assign) and isinstance(st[1].targets[0], ast.Name):
                                 vals[st[1].targets[0].id] = st[1].value
+                        d10 = C.sub(C.atom(('sub', ('n', arr), C.ONE)), C.atom(('sub', ('n', arr), C.ZERO)))
+                        n_gt_1 = C.mk_cmp('gt', C.atom(('n', n)), C.ONE)
                         if cur in vals and isinstance(vals[cur], ast.Constant) and vals[cur].value == 0 and v in vals:
                             cv = C.canon_expr(vals[v], env)
                             sa = C.single_atom(cv)
-                            d10 = C.sub(C.atom(('sub', ('n', arr), C.ONE)), C.atom(('sub', ('n', arr), C.ZERO)))
-                            n_gt_1 = C.mk_cmp('gt', C.atom(('n', n)), C.ONE)
                             if sa is not None and sa[0] == 'ifexp' and sa[1] == n_gt_1 and sa[2] == d10:
                                 init_ok = True
                             elif cv == d10:
                                 init_ok = True
+                        elif cur in vals and isinstance(vals[cur], ast.Constant) and vals[cur].value == 0:
+                            # the same initialisation spelled as a statement: `if N > 1: v = arr[1]-arr[0] else: ...`
+                            for st in body:
+                                if st[0] == 'if' and len(st[1]) == 1:
+                                    try:
+                                        g2 = C.canon_cond(st[1][0][0], env)
+                                    except C.CanonError:
+                                        continue
+                                    tvs = {x[1].targets[0].id: x[1].value for x in st[1][0][1] if x[0] == 'simple'
+                                           and isinstance(x[1], ast.Assign) and isinstance(x[1].targets[0], ast.Name)}
+                                    if g2 == n_gt_1 and v in tvs and C.canon_expr(tvs[v], env) == d10:
+                                        init_ok = True
             good &= init_ok
             title = (f"L2 premises for `{v}`: every advance of `{cur}` under `{cur} < {n}-1` assigns "
                      f"`{arr}[{cur}+1]-{arr}[{cur}]`, nothing else writes it, and the start-on-edge "
